@@ -344,7 +344,7 @@ void seq_case(vk::Choice& c) {
   outer_returned = true;
   for (auto& f : cleanup) f();
   if (completed != started) cx.fail(P, "item_lost", "%ld nested schedule() operations started but %ld completed by the time the outermost start() returned", started, completed);
-  if (tramp && max_nesting > depth + 1) cx.fail(P, "trampoline_depth", "trampoline_scheduler(depth %d) nested %d completions on the stack", depth, max_nesting);
+  if (tramp && max_nesting > depth) cx.fail(P, "trampoline_depth", "trampoline_scheduler(depth %d) nested %d completions on the stack", depth, max_nesting);
   cx.label(tramp ? "trampoline" : "inline");
   g_w = nullptr;
 }
